@@ -1190,6 +1190,13 @@ def evaluate_log_F_ext(
             raise ValueError(
                 f"Expected at least 10 evaluations instead of {abs(num_F_ext_evaluations)=} for the optimization of log F_ext"
             )
+        elif num_points < 6:
+            # The evaluation relies on how the pseudo chi-squared value
+            # depends on the number of RC elements, which cannot be
+            # characterized with only a handful of points.
+            raise KramersKronigError(
+                f"Expected at least 6 unmasked data points instead of {num_points} when evaluating extensions of the range of time constants (i.e., when 'num_F_ext_evaluations != 0')"
+            )
 
         if num_F_ext_evaluations < 0:
             num_steps += abs(num_F_ext_evaluations) + 2
